@@ -1,9 +1,11 @@
 #!/bin/bash
+# usage: run_all.sh <tier> ["<ids>"]
 # runs every check of one tier sequentially and prints the protocol lines; exit 1 if any check did not exit 0
 tier=${1:-quick}
 cd "$(dirname "$0")/.."
 rc=0
-for i in 01 02 03 04 05 06 07 08 09 10 11 12 13 14 15 16 17 18 19 20; do
+ids=${2:-"01 02 03 04 05 06 07 08 09 10 11 12 13 14 15 16 17 18 19 20"}
+for i in $ids; do
   s=$(date +%s)
   python3 verif.py check C$i --tier $tier > out/all_$tier.C$i.log 2>&1
   r=$?
